@@ -8,6 +8,8 @@ connection-closed notifications in any order, late replies, timer firings and ne
 Afkak.Monitor.C20 is evaluated on the real trace, including what the simulated network saw after close.
 """
 from harness.lib import client_common as CC
+from harness.lib import client_compose as XC
+from harness.lib import client_beyond as XB
 from harness.props import c07
 
 COMPONENTS = ["client"]
@@ -15,7 +17,7 @@ TRUSTED = c07.TRUSTED
 ASSUMPTIONS = [
     "`load_metadata_for_topics` pending at close may complete with its documented cancellation value None (not an exception)",
     "the ephemeral bootstrap connection is told to close inside close(); its connection-lost notification is not awaited by the close Deferred",
-    "_load_topic_partitions (private, used by the group coordinator) sleeping in its retry delay is not exercised here",
+    "beyond-model stages (close() from inside a callback; version discovery enabled) are judged by the monitor on the real trace only",
 ]
 
 
@@ -26,6 +28,14 @@ def run(ctx, res):
                 "close(). non-trivial = a scenario in which close() had to close at least one broker client or abort a bootstrap; distinct by content hash.")
     c07.run_corpus(ctx, res, ["c20-", "net-"], "c20", "C20")
     c07.net_scenarios(ctx, res, ctx.scale(3000, 200000), "c20")
+    # the same stack, recorded as network-level events with the observations at BOTH boundaries, against the COMPOSED
+    # model (client model x one broker-client model per instance, lean/Afkak/ClientCompose.lean)
+    XC.stage(ctx, res, ctx.scale(350, 20000), "c20", corpus_prefixes=["c20-"])
+    # beyond-model stages: the C20 monitor on the real trace only - close() called from inside an operation's callback
+    # (re-entrant: while a broker client writes its queue, inside a reply's callback chain), and protocol version
+    # discovery enabled (operations parked in fetch_api_versions at close)
+    XB.stage(ctx, res, ctx.scale(160, 6000), "reentrant", ctx.scale(10, 240))
+    XB.stage(ctx, res, ctx.scale(160, 6000), "discovery", ctx.scale(10, 240))
 
 
 def search(ctx, res, broken):
@@ -34,4 +44,5 @@ def search(ctx, res, broken):
 
 
 def replay(ctx, data):
-    return c07.replay_net(ctx, data, "C20", "c20")
+    rc = c07.replay_net(ctx, data, "C20", "c20")
+    return XC.replay(ctx, data) or rc
